@@ -1,10 +1,17 @@
 (* C15 - correctness does not wear out: index overflow correction, table reduction, unbounded histories.
-   Only statements here; proofs are in coq/Index/*Proofs.v. *)
+   Only statements here; models are in coq/Index/{Window,Reduce,Overflow,History}.v, proofs in
+   coq/Index/*Proofs.v.  Constants (START = ZSTD_WINDOW_START_INDEX, CURRENT_MAX, CHUNKSIZE_MAX, BLOCKSIZE_MAX,
+   INDEXOVERFLOW_MARGIN, CHAINLOG_MAX, WINDOWLOG_MAX, ...) are regenerated from the current headers. *)
 From Coq Require Import ZArith List Bool.
-From ZV.Index Require Import Window Reduce Overflow History OverflowProofs.
+From ZV.Index Require Import Window Reduce Overflow History
+     OverflowProofs ReduceProofs CorrectProofs WindowProofs HistoryProofs.
 Import ListNotations.
 Local Open Scope Z_scope.
 
+(* 1. ZSTD_window_correctOverflow: once the index is at least minIndexToOverflowCorrect, the correction is a
+   genuine reduction computed without wrap-around; the full window stays addressable above the reserved
+   indices; chain / binary-tree position bits are unchanged; every index that can still be referenced keeps
+   its byte, its distance and its validity. *)
 Theorem correction_preserves_window :
   forall (w : window) (cl wl src : Z),
     params_ok cl wl -> window_bounded w ->
@@ -32,3 +39,264 @@ Theorem correction_preserves_window :
     (forall i, i <= curr -> curr - i <= 2 ^ wl -> corr + START <= i).
 Proof. exact correction_preserves_window_lemma. Qed.
 Print Assumptions correction_preserves_window.
+
+(* 2. the trigger (ZSTD_window_needOverflowCorrection, either build) establishes that precondition whenever
+   the segment being processed is short enough for the parameters ... *)
+Theorem need_implies_correctable :
+  forall freq w cl wl lde src srcEnd n,
+    params_ok cl wl ->
+    0 <= src - base w -> src <= srcEnd -> srcEnd - base w < two32 -> srcEnd - src <= n ->
+    minIndexToOverflowCorrect cl wl + n <= CURRENT_MAX + 1 ->
+    window_needOverflowCorrection freq w cl (2 ^ wl) lde src srcEnd = true ->
+    minIndexToOverflowCorrect cl wl <= src - base w.
+Proof. exact need_implies_correctable_lemma. Qed.
+Print Assumptions need_implies_correctable.
+
+(* ... which blocks (<= ZSTD_BLOCKSIZE_MAX) always are ... *)
+Theorem block_size_is_short_enough :
+  forall cl wl, params_ok cl wl -> minIndexToOverflowCorrect cl wl + BLOCKSIZE_MAX <= CURRENT_MAX + 1.
+Proof. exact block_size_condition. Qed.
+Print Assumptions block_size_is_short_enough.
+
+(* ... and chunks of ZSTD_CHUNKSIZE_MAX are, except for windowLog = 31 with cycleLog = 30 *)
+Theorem chunk_size_is_short_enough :
+  forall cl wl, params_ok cl wl -> (cl <= 29 \/ wl <= 30) ->
+    minIndexToOverflowCorrect cl wl + CHUNKSIZE_MAX <= CURRENT_MAX + 1.
+Proof. exact chunk_size_condition. Qed.
+Print Assumptions chunk_size_is_short_enough.
+
+Theorem chunk_size_corner_is_not :
+  minIndexToOverflowCorrect 30 31 + CHUNKSIZE_MAX > CURRENT_MAX + 1.
+Proof. exact chunk_size_condition_corner. Qed.
+Print Assumptions chunk_size_corner_is_not.
+
+(* 3. ZSTD_reduceTable_internal, cell by cell, including the row batching and the unsorted mark *)
+Theorem reduce_table_sound :
+  forall (t : list Z) (size r : Z) (pm : bool) (k : nat),
+    0 <= r -> r + START < two32 -> 0 <= size ->
+    (forall e, In e t -> 0 <= e < two32) ->
+    (k < length t)%nat ->
+    let e := nth k t 0 in
+    let e' := nth k (reduceTable_internal t size r pm) 0 in
+    length (reduceTable_internal t size r pm) = length t /\
+    (Z.of_nat k < ROWSIZE * (size / ROWSIZE) ->
+       (pm = true -> e = DUBT_UNSORTED_MARK -> e' = DUBT_UNSORTED_MARK) /\
+       ((pm = false \/ e <> DUBT_UNSORTED_MARK) -> e < r + START -> e' = 0) /\
+       ((pm = false \/ e <> DUBT_UNSORTED_MARK) -> r + START <= e -> e' = e - r /\ START <= e' < two32)) /\
+    (ROWSIZE * (size / ROWSIZE) <= Z.of_nat k -> e' = e).
+Proof. exact reduce_table_sound_lemma. Qed.
+Print Assumptions reduce_table_sound.
+
+Theorem unsorted_mark_is_reserved : DUBT_UNSORTED_MARK < START.
+Proof. exact mark_below_start. Qed.
+Print Assumptions unsorted_mark_is_reserved.
+
+Theorem ldm_reduce_sound :
+  forall (t : list Z) (r : Z) (k : nat),
+    0 <= r < two32 -> (forall e, In e t -> 0 <= e < two32) -> (k < length t)%nat ->
+    let e := nth k t 0 in
+    let e' := nth k (ldm_reduceTable t r) 0 in
+    length (ldm_reduceTable t r) = length t /\
+    (e < r -> e' = 0) /\ (r <= e -> e' = e - r).
+Proof. exact ldm_reduce_sound_lemma. Qed.
+Print Assumptions ldm_reduce_sound.
+
+(* 4. ZSTD_overflowCorrectIfNeeded as a whole: window, dictionaries, nextToUpdate, tables *)
+Theorem overflow_correction_sound :
+  forall freq ms p ip iend n,
+    cparams_ok p -> ms_bounded ms ->
+    let w := ms_window ms in
+    let cl := cycleLog_of (p_chainLog p) (p_strategy p) in
+    let wl := p_windowLog p in
+    0 <= ip - base w -> ip <= iend -> iend - base w < two32 -> iend - ip <= n ->
+    minIndexToOverflowCorrect cl wl + n <= CURRENT_MAX + 1 ->
+    match overflowCorrectIfNeeded freq ms p ip iend with
+    | (ms', None) => ms' = ms /\ iend - base w <= CURRENT_MAX
+    | (ms', Some corr) =>
+        let w' := ms_window ms' in
+        (w', corr) = window_correctOverflow w cl (2 ^ wl) ip /\
+        0 < corr < two32 /\
+        ip - base w' = ip - base w - corr /\
+        2 ^ wl + START <= ip - base w' <= 2 ^ cl + Z.max (2 ^ wl) (2 ^ cl) + 1 /\
+        ms_loadedDictEnd ms' = 0 /\ ms_dms ms' = false /\
+        (corr <= ms_nextToUpdate ms ->
+           ms_nextToUpdate ms' = ms_nextToUpdate ms - corr /\
+           base w' + ms_nextToUpdate ms' = base w + ms_nextToUpdate ms) /\
+        (ms_nextToUpdate ms < corr -> ms_nextToUpdate ms' = 0) /\
+        ms_tables ms' = reduceIndex (ms_tables ms) (ms_hashLog3 ms) (ms_dds ms) p corr /\
+        ms_hashLog3 ms' = ms_hashLog3 ms /\ ms_dds ms' = ms_dds ms
+    end.
+Proof. exact overflow_correction_sound_lemma. Qed.
+Print Assumptions overflow_correction_sound.
+
+(* a table entry that can still be referenced designates the same byte after the correction *)
+Theorem entry_keeps_its_byte :
+  forall w w' corr cl wl src e pm,
+    params_ok cl wl -> window_bounded w -> 0 <= src - base w < two32 ->
+    minIndexToOverflowCorrect cl wl <= src - base w ->
+    window_correctOverflow w cl (2 ^ wl) src = (w', corr) ->
+    corr + START <= e <= src - base w ->
+    reduce_cell corr pm e = e - corr /\ base w' + reduce_cell corr pm e = base w + e /\
+    (src - base w') - reduce_cell corr pm e = (src - base w) - e.
+Proof. exact CorrectProofs.entry_keeps_its_byte. Qed.
+Print Assumptions entry_keeps_its_byte.
+
+(* 5. the long-distance matcher's own window: one chunk step of ZSTD_ldm_generateSequences *)
+Theorem ldm_correction :
+  forall freq s wl chunkStart chunkEnd,
+    0 <= wl <= WINDOWLOG_MAX ->
+    let w := ldm_window s in
+    window_bounded w -> 0 <= ldm_loadedDictEnd s <= chunkStart - base w ->
+    0 <= chunkStart - base w -> chunkStart <= chunkEnd -> chunkEnd - base w < two32 ->
+    chunkEnd - chunkStart <= CHUNKSIZE_MAX ->
+    lowLimit w <= dictLimit w -> dictLimit w <= chunkStart - base w ->
+    let '(s', corr) := ldm_chunk_step freq s wl chunkStart chunkEnd in
+    let w' := ldm_window s' in
+    0 <= lowLimit w' /\ 0 <= nbOvf w' < two32 /\
+    lowLimit w' <= dictLimit w' /\ dictLimit w' <= chunkEnd - base w' /\
+    0 <= chunkEnd - base w' < two32 /\
+    (ldm_loadedDictEnd s' = 0 \/ (ldm_loadedDictEnd s' = ldm_loadedDictEnd s /\ corr = None)) /\
+    match corr with
+    | None => base w' = base w /\ ldm_table s' = ldm_table s /\ chunkEnd - base w <= CURRENT_MAX
+    | Some c =>
+        0 < c < two32 /\ base w' = base w + c /\
+        2 ^ wl + START <= chunkStart - base w' <= 2 ^ wl + 2 /\
+        ldm_table s' = ldm_reduceTable (ldm_table s) c /\
+        (forall e, e <= chunkStart - base w -> (chunkStart - base w) - e <= 2 ^ wl ->
+           ldm_reduce_cell c e = e - c /\ base w' + (e - c) = base w + e)
+    end.
+Proof. exact ldm_correction_lemma. Qed.
+Print Assumptions ldm_correction.
+
+(* 6. ZSTD_window_update *)
+Theorem window_update_sound :
+  forall w src size force,
+    window_wf w -> 0 < size ->
+    src + size - dictBase w < two64 -> src + size - base w < two64 ->
+    let c := nextSrc w - base w in
+    let '(w', contiguous) := window_update w src size force in
+    nextSrc w' = src + size /\ src - base w' = c /\ nextSrc w' - base w' = c + size /\
+    0 <= lowLimit w' /\ lowLimit w' <= dictLimit w' /\ dictLimit w' <= c /\ nbOvf w' = nbOvf w /\
+    (contiguous = true <-> (src = nextSrc w /\ force = false)) /\
+    (contiguous = true -> base w' = base w /\ dictBase w' = dictBase w /\ dictLimit w' = dictLimit w) /\
+    (contiguous = false -> dictLimit w' = c /\ dictBase w' = base w) /\
+    (lowLimit w' = dictLimit w' \/ src + size <= dictBase w' + lowLimit w' \/ dictBase w' + dictLimit w' <= src).
+Proof. exact window_update_sound_lemma. Qed.
+Print Assumptions window_update_sound.
+
+(* 7. ZSTD_window_enforceMaxDist *)
+Theorem enforceMaxDist_sound :
+  forall w blockEnd wl lde dms,
+    0 <= wl <= WINDOWLOG_MAX ->
+    0 <= lowLimit w -> lowLimit w <= dictLimit w ->
+    let be := blockEnd - base w in
+    dictLimit w <= be -> be < two32 -> 0 <= lde <= be ->
+    let '(w', lde', dms') := window_enforceMaxDist w blockEnd (2 ^ wl) (Some lde) (Some dms) in
+    base w' = base w /\ dictBase w' = dictBase w /\ nextSrc w' = nextSrc w /\ nbOvf w' = nbOvf w /\
+    lowLimit w <= lowLimit w' /\ lowLimit w' <= dictLimit w' /\ dictLimit w' <= be /\
+    dictLimit w <= dictLimit w' /\
+    ((w' = w /\ lde' = Some lde /\ dms' = Some dms /\ (be <= 2 ^ wl + lde \/ two32 <= 2 ^ wl + lde)) \/
+     (lde' = Some 0 /\ dms' = Some false /\ be - lowLimit w' <= 2 ^ wl /\
+      lowLimit w' = Z.max (lowLimit w) (be - 2 ^ wl) /\ dictLimit w' = Z.max (dictLimit w) (lowLimit w'))).
+Proof. exact enforceMaxDist_sound_lemma. Qed.
+Print Assumptions enforceMaxDist_sound.
+
+(* 8. ZSTD_checkDictValidity: the dictionary is dropped exactly when it has scrolled out of range *)
+Theorem dict_scrolls_out :
+  forall w blockEnd wl lde dms,
+    0 <= wl <= WINDOWLOG_MAX ->
+    let be := blockEnd - base w in
+    0 <= be < two32 -> 0 <= lde -> 2 ^ wl + lde < two32 ->
+    let '(lde', dms') := checkDictValidity w blockEnd (2 ^ wl) lde dms in
+    ((be > lde + 2 ^ wl \/ lde <> dictLimit w) -> lde' = 0 /\ dms' = false) /\
+    (be <= lde + 2 ^ wl -> lde = dictLimit w -> lde' = lde /\ dms' = dms).
+Proof. exact dict_scrolls_out_lemma. Qed.
+Print Assumptions dict_scrolls_out.
+
+(* 9. ZSTD_getLowestMatchIndex / ZSTD_getLowestPrefixIndex *)
+Theorem lowest_match_within_window :
+  forall lowestValid curr wl lde,
+    0 <= wl <= WINDOWLOG_MAX -> 0 <= lowestValid <= curr -> curr < two32 ->
+    let m := lowest_index lowestValid curr wl lde in
+    lowestValid <= m <= curr /\
+    (lde = 0 -> curr - m <= 2 ^ wl /\ (m = lowestValid \/ m = curr - 2 ^ wl)) /\
+    (lde <> 0 -> m = lowestValid).
+Proof. exact lowest_index_sound_lemma. Qed.
+Print Assumptions lowest_match_within_window.
+
+(* 10. the index reset policy of ZSTD_resetCCtx_internal (ZSTD_indexTooCloseToMax / ZSTD_dictTooBig):
+   a frame starts either on a fresh referential or at least ZSTD_INDEXOVERFLOW_MARGIN below ZSTD_CURRENT_MAX
+   with a dictionary of at most ZSTD_CHUNKSIZE_MAX still to load *)
+Theorem needsIndexReset_sound :
+  forall ms lds forced lit h3,
+    ms_inv ms (nextSrc (ms_window ms)) CB -> 0 <= lds ->
+    let doReset := needsIndexReset (ms_window ms) lds forced in
+    let ms1 := reset_matchState ms doReset lit h3 in
+    let w1 := ms_window ms1 in
+    let c1 := nextSrc w1 - base w1 in
+    lowLimit w1 = c1 /\ dictLimit w1 = c1 /\ 0 <= nbOvf w1 < two32 /\ ms_loadedDictEnd ms1 = 0 /\
+    ((doReset = true /\ c1 = START) \/
+     (doReset = false /\ c1 <= CURRENT_MAX - INDEXOVERFLOW_MARGIN /\ lds <= CHUNKSIZE_MAX /\ 0 <= c1)) /\
+    (doReset = true \/ exact_idx (ms_window ms) (nextSrc (ms_window ms)) = true).
+Proof. exact reset_inv. Qed.
+Print Assumptions needsIndexReset_sound.
+
+(* 11. ... so that ZSTD_loadDictionaryContent (with its truncations and its own overflow correction) ends
+   with every index exact *)
+Theorem dictionary_load_fits :
+  forall freq ms ls p src size fw drp,
+    cparams_ok p -> HASH_READ_SIZE <= size ->
+    let w := ms_window ms in
+    let c := nextSrc w - base w in
+    lowLimit w = c -> dictLimit w = c -> 0 <= nbOvf w < two32 -> ms_loadedDictEnd ms = 0 ->
+    (c = START \/ (0 <= c <= CURRENT_MAX - INDEXOVERFLOW_MARGIN /\ size <= CHUNKSIZE_MAX)) ->
+    let '(ms', _, _, _) := loadDictionaryContent freq ms ls p src size fw drp false in
+    ms_inv ms' (src + size) CB /\ nextSrc (ms_window ms') = src + size /\
+    (c = START -> (src + size) - base (ms_window ms') <= CURRENT_MAX).
+Proof. exact loadDict_inv. Qed.
+Print Assumptions dictionary_load_fits.
+
+(* 12. THE "does not wear out" statement.  For every history - any number of frames, dictionaries,
+   parameter changes, chunks, blocks, corrections, in either build - whose operations respect the sizes the
+   code itself enforces (blocks <= ZSTD_BLOCKSIZE_MAX, legal parameters), starting from any state satisfying
+   the invariant (a new context does), the invariant holds afterwards and every U32 index the match-state
+   window computed along the way was the exact pointer difference.  No total size appears. *)
+Theorem index_never_overflows :
+  forall freq ops h, Inv h -> Forall op_ok ops -> Inv (run freq h ops) /\ run_ok_ms freq h ops = true.
+Proof. exact index_never_overflows_lemma. Qed.
+Print Assumptions index_never_overflows.
+
+Theorem new_context_satisfies_invariant : forall p, cparams_ok p -> Inv (h_init p).
+Proof. exact Inv_init. Qed.
+Print Assumptions new_context_satisfies_invariant.
+
+Theorem invariant_meaning :
+  forall h, Inv h ->
+  let w := ms_window (h_ms h) in
+  0 <= lowLimit w /\ lowLimit w <= dictLimit w /\ dictLimit w <= nextSrc w - base w /\
+  nextSrc w - base w <= CURRENT_MAX + CHUNKSIZE_MAX - BLOCKSIZE_MAX /\
+  nextSrc w - base w + BLOCKSIZE_MAX < two32.
+Proof. exact Inv_meaning. Qed.
+Print Assumptions invariant_meaning.
+
+(* 13. the contract of ZSTD_CHUNKSIZE_MAX (chunk machine: window update + correction per chunk) *)
+Theorem chunk_machine_never_overflows :
+  forall freq ops h, InvC h -> Forall chunk_op_ok ops -> InvC (run freq h ops) /\ run_ok_ms freq h ops = true.
+Proof. exact chunk_machine_never_overflows_lemma. Qed.
+Print Assumptions chunk_machine_never_overflows.
+
+(* 14. the LDM window, as long as every byte goes through the chunk step ... *)
+Theorem ldm_index_never_overflows :
+  forall freq wl sizes s p,
+    0 <= wl <= WINDOWLOG_MAX -> ldm_inv s p -> Forall (fun n => 0 < n <= CHUNKSIZE_MAX) sizes ->
+    ldm_inv (ldm_run freq s wl p sizes) (p + sumZ sizes) /\ ldm_run_ok freq s wl p sizes = true.
+Proof. exact ldm_index_never_overflows_lemma. Qed.
+Print Assumptions ldm_index_never_overflows.
+
+(* ... which blocks below 7 bytes do not (see docs/C15.md, "LDM window and tiny blocks") *)
+Theorem ldm_tiny_blocks_unchecked :
+  forall freq blocks h ip l,
+    h_ldm h = Some l -> Forall (fun b => 0 < b < TINY_BLOCK) blocks ->
+    h_ldm (frame_blocks freq h ip blocks) = Some l.
+Proof. exact ldm_tiny_blocks_unchecked_lemma. Qed.
+Print Assumptions ldm_tiny_blocks_unchecked.
